@@ -12,6 +12,7 @@ import (
 	"reflect"
 	"strings"
 	"testing"
+	"time"
 	"unicode/utf16"
 
 	ebu "github.com/jilio/ebu"
@@ -122,6 +123,7 @@ type msgSpec struct {
 	Ent  string `json:"ent,omitempty"`
 	Key  string `json:"key,omitempty"`
 	Val  any    `json:"val,omitempty"`
+	TS   string `json:"ts,omitempty"` // headers.timestamp given by the producer
 }
 
 func genUser(r *rand.Rand) User {
@@ -319,6 +321,12 @@ func gen(r *rand.Rand) []msgSpec {
 			l = append(l, msgSpec{Kind: "bad-value", Ent: "user", Key: key})
 		}
 	}
+	// producers stamp some of their changes with their own (skewed) clocks: the fold follows the log
+	for i := range l {
+		if k := l[i].Kind; k != "reset" && k != "snap-start" && k != "snap-end" && k != "bad-value" && r.IntN(3) == 0 {
+			l[i].TS = time.Unix(1700000000+int64(r.IntN(2000))-1000, 0).UTC().Format(time.RFC3339)
+		}
+	}
 	return l
 }
 
@@ -512,6 +520,9 @@ func TestC18(t *testing.T) {
 			}
 			switch m := msg.(type) {
 			case *state.ChangeMessage:
+				if sp.TS != "" {
+					m.Headers.Timestamp = sp.TS
+				}
 				if c%4 == 1 {
 					// a producer in another language: the same document, its key spelled with the escapes
 					// JSON allows ("\/", "\uXXXX" incl. surrogate pairs)
